@@ -252,16 +252,7 @@ class workq:
 
         channel = job.channel
 
-        alternatives = []
-        for watching, ev in self._waiters:
-            if channel in watching or not watching:
-                alternatives.append(ev)
-
         heapq.heappush(self.timeoutq, (job.timeout, job))
-
-        if alternatives:
-            random.choice(alternatives).set(job)
-            return job.jobid
 
         try:
             q = self.channel2q[channel]
@@ -269,6 +260,19 @@ class workq:
             q = self.channel2q[channel] = []
 
         heapq.heappush(q, job)
+
+        # wake up the blocked pullers watching this channel (a random one
+        # first); they take the job from the queue themselves, so a job is never
+        # parked in a waiter that is overwritten or dies before it runs
+        alternatives = []
+        for watching, ev in self._waiters:
+            if channel in watching or not watching:
+                alternatives.append(ev)
+
+        if alternatives:
+            random.choice(alternatives).set(None)
+            for ev in alternatives:
+                ev.set(None)
 
         return job.jobid
 
@@ -290,31 +294,31 @@ class workq:
         )
 
     def pop(self, channels):
-        try_channels = channels if channels else list(self.channel2q.keys())
+        while True:
+            try_channels = channels if channels else list(self.channel2q.keys())
 
-        self._preenall()
+            self._preenall()
 
-        jobs = []
-        for c in try_channels:
-            try:
-                q = self.channel2q[c]
-            except KeyError:
-                continue
-            if q:
-                jobs.append(q[0])
+            jobs = []
+            for c in try_channels:
+                try:
+                    q = self.channel2q[c]
+                except KeyError:
+                    continue
+                if q:
+                    jobs.append(q[0])
 
-        if jobs:
-            j = min(jobs)
-            heapq.heappop(self.channel2q[j.channel])
-        else:
+            if jobs:
+                j = min(jobs)
+                heapq.heappop(self.channel2q[j.channel])
+                return j
+
             ev = event.AsyncResult()
             self._waiters.append((channels, ev))
             try:
-                j = ev.get()
+                ev.get()
             finally:
                 self._waiters.remove((channels, ev))
-
-        return j
 
     def prefixmatch(self, prefix):
         for jobid in self.id2job:
